@@ -262,7 +262,7 @@ Proof.
   intros H G. unfold on_emitter. destruct (c_query ch) as [|q [|q2 l]]; try (apply BI_emit; exact H).
   destruct (q =? h_me); [apply BI_emit; exact H|].
   destruct (q =? h_link).
-  { destruct r as [name key channel sub| |]; try (apply BI_emit; exact H).
+  { destruct r as [name key channel sub| | |]; try (apply BI_emit; exact H).
     destruct (negb (is_alnum12 name)); [apply BI_emit; exact H|].
     destruct (c_type _ =? ChannelInvalid); [apply BI_emit; exact H|].
     apply BI_emit.
@@ -271,8 +271,13 @@ Proof.
     assert (get_conn (b_conns (with_conn b i c')) (N.to_nat i) = Some c') as G1 by (unfold with_conn; cbn [b_conns]; eapply get_set_same; exact G).
     destruct (auth e _ AllowRead) as [k|]; [|exact H1]. destruct sub; [|exact H1].
     apply BI_subscribe; assumption. }
+  destruct (q =? h_history).
+  { destruct r as [| | channel |]; try (apply BI_emit; exact H).
+    destruct (c_type _ =? ChannelInvalid); [apply BI_emit; exact H|].
+    destruct (auth e _ AllowLoad) as [k|]; [|apply BI_emit; exact H].
+    destruct (chan_window _) as [t0 t1]. apply BI_emit. exact H. }
   destruct (q =? h_presence); [|apply BI_emit; exact H].
-  destruct r as [| key channel status changes |]; try (apply BI_emit; exact H).
+  destruct r as [| key channel status changes | |]; try (apply BI_emit; exact H).
   destruct (c_type _ =? ChannelInvalid); [apply BI_emit; exact H|].
   destruct (auth e _ AllowPresence) as [k|]; [|apply BI_emit; exact H].
   destruct (has_permission k AllowExtend); [apply BI_emit; exact H|].
@@ -325,7 +330,7 @@ Proof.
   set (b0 := B (b_trie b) (b_conns b) (b_store b) (b_seq b) (b_queue b) []).
   assert (BI b0) as H0.
   { apply (BI_same b b0 eq_refl); [|exact H]. intros j. cbn. destruct (get_conn (b_conns b) j); auto. }
-  destruct o as [user w subid | mid topic qos | mid topic | mid retain topic payload | mid name key channel sub | mid key channel status changes | | how | subid].
+  destruct o as [user w subid | mid topic qos | mid topic | mid retain topic payload | mid name key channel sub | mid key channel status changes | mid channel | | how | subid].
   - destruct (get_conn (b_conns b0) (N.to_nat i)) as [c|] eqn:G; [|exact H0]. apply BI_emit.
     apply (BI_with_conn b0 i c _ G); [cbn; symmetry; apply (W c); exact G | reflexivity | exact H0].
   - destruct (get_conn (b_conns b0) (N.to_nat i)) as [c|] eqn:G; [|exact H0].
@@ -335,6 +340,9 @@ Proof.
   - destruct (get_conn (b_conns b0) (N.to_nat i)) as [c|] eqn:G; [|exact H0].
     pose proof (BI_on_publish e b0 i c mid retain topic payload ENone H0 G) as H1.
     destruct (on_publish X e b0 i c mid retain topic payload ENone) as [b1 [st|]]; cbn [fst] in H1; repeat apply BI_emit; exact H1.
+  - destruct (get_conn (b_conns b0) (N.to_nat i)) as [c|] eqn:G; [|exact H0].
+    match goal with |- context [on_publish X e b0 i c mid false ?t [] ?r] => pose proof (BI_on_publish e b0 i c mid false t [] r H0 G) as H1;
+      destruct (on_publish X e b0 i c mid false t [] r) as [b1 err] end. cbn [fst] in H1. apply BI_emit. exact H1.
   - destruct (get_conn (b_conns b0) (N.to_nat i)) as [c|] eqn:G; [|exact H0].
     match goal with |- context [on_publish X e b0 i c mid false ?t [] ?r] => pose proof (BI_on_publish e b0 i c mid false t [] r H0 G) as H1;
       destruct (on_publish X e b0 i c mid false t [] r) as [b1 err] end. cbn [fst] in H1. apply BI_emit. exact H1.
